@@ -251,6 +251,13 @@ func loadAll(rt reflect.Type, tx texts) [3]outcome { return loadAllWith(confLoad
 
 // selfCheck verifies that the YAML and TOML renderings denote the document.
 func selfCheck(c *kit.Case, d *node, tx texts) bool {
+	if d.spelled() {
+		if err := selfCheckJSON(tx[0], d); err != nil {
+			c.Obs("harness_selfcheck_failed", 1)
+			c.Inconclusive("harness renderer self-check: " + truncate(err.Error(), 300) + " | json: " + truncate(tx[0], 600))
+			return false
+		}
+	}
 	if err := selfCheckYAML(tx[1], d); err != nil {
 		c.Obs("harness_selfcheck_failed", 1)
 		c.Inconclusive("harness renderer self-check: " + truncate(err.Error(), 300) + " | yaml: " + truncate(tx[1], 600))
@@ -438,17 +445,28 @@ func mapKeyEqualsFieldName(n *node, t *tdesc) bool {
 
 // ---------------------------------------------------------------- one (type, document) pair
 
-func runPair(c *kit.Case, t *tdesc, plain bool, scratch string, idx int) {
+// spellFrac: the fraction of documents whose numbers get other legal spellings (spell_test.go),
+// spellP: the probability per number.
+func runPair(c *kit.Case, t *tdesc, plain bool, scratch string, idx int, spellFrac, spellP float64) {
 	r := c.R
 	g := &dgen{r: r}
 	d0 := g.value(t, 0)
 	label := "well-typed"
 	mutated := r.Chance(0.55)
+	spellR := kit.NewRand(r.Uint64())
+	doSpell := spellR.Chance(spellFrac)
+	if doSpell {
+		respell(spellR, d0, t, spellP)
+	}
 	var base *node // the document before the mismatch was put in
 	if mutated {
 		base = d0.clone(func(e ent) string { return e.key })
 		label = g.mutate(d0, false)
 		mutated = label != "well-typed"
+		if doSpell {
+			// the value the mismatch put in gets a spelling too
+			respell(spellR, d0, t, spellP)
+		}
 	}
 	if !mutated || base.has(nBigUint) {
 		base = nil
@@ -478,35 +496,42 @@ func runPair(c *kit.Case, t *tdesc, plain bool, scratch string, idx int) {
 		if selfCheck(c, d0, tx0) {
 			res0, comparable, dis := threeWay(c, t.rt, label, tx0, true)
 			c.Obs("pairs_compared", 1)
-			if dis != nil {
-				// attribute the disagreement: if the document without the mismatch disagrees in the
-				// same way, the mismatch is not what causes it
-				lab := label
+			if d0.spelled() {
+				c.Obs("pairs_compared_with_respelled_numbers", 1)
+				countSpellings(c, d0, tx0)
+			}
+			// attribute reports a disagreement: if the document without the mismatch disagrees in the
+			// same way, the mismatch is not what causes it; if the document with every number in its
+			// canonical spelling does not disagree in that way, the spelling of a number causes it
+			attribute := func(ls loaderSet, dis *disagreement) {
+				lab, sfx := label, ""
 				if base != nil {
 					txb := renderAll(base, rs)
 					if selfCheck(c, base, txb) {
-						if _, _, db := threeWay(c, t.rt, "well-typed", txb, false); db != nil && db.kind == dis.kind && db.pattern == dis.pattern {
+						if _, _, db := threeWayWith(ls, c, t.rt, "well-typed", txb, false); db != nil && db.kind == dis.kind && db.pattern == dis.pattern {
 							lab, dis = "well-typed", db
 						}
 					}
 				}
-				dis.wit["label"] = lab
-				c.Viol("C17/"+dis.kind+"/"+labelClass(lab)+"/"+dis.pattern, dis.what, dis.wit)
+				if dd := map[bool]*node{true: d0, false: base}[lab == label]; dd != nil && dd.spelled() {
+					dc := dd.unspelled()
+					txc := renderAll(dc, rs)
+					if selfCheck(c, dc, txc) {
+						if _, _, db := threeWayWith(ls, c, t.rt, lab, txc, false); db == nil || db.kind != dis.kind || db.pattern != dis.pattern {
+							sfx = "+number-spelling"
+						}
+					}
+				}
+				dis.wit["label"] = lab + sfx
+				c.Viol("C17/"+dis.kind+"/"+labelClass(lab)+sfx+"/"+dis.pattern, dis.what, dis.wit)
+			}
+			if dis != nil {
+				attribute(confLoaders, dis)
 			}
 			// the same three renderings through core/mapping's own format-specific unmarshalers
 			// (same oracle, same key classes; the witness names the entry points)
 			if _, _, dm := threeWayWith(mappingLoaders, c, t.rt, label, tx0, false); dm != nil {
-				lab := label
-				if base != nil {
-					txb := renderAll(base, rs)
-					if selfCheck(c, base, txb) {
-						if _, _, db := threeWayWith(mappingLoaders, c, t.rt, "well-typed", txb, false); db != nil && db.kind == dm.kind && db.pattern == dm.pattern {
-							lab, dm = "well-typed", db
-						}
-					}
-				}
-				dm.wit["label"] = lab
-				c.Viol("C17/"+dm.kind+"/"+labelClass(lab)+"/"+dm.pattern, dm.what, dm.wit)
+				attribute(mappingLoaders, dm)
 			}
 			nontrivial = sh.nested+sh.slices+sh.maps+sh.ptrs+sh.embedded > 0 || mutated
 			if idx < 2 && c.Index < 3 {
@@ -541,6 +566,10 @@ func runPair(c *kit.Case, t *tdesc, plain bool, scratch string, idx int) {
 			// ---- oracle 3 (file part): conf.Load on a file == the bytes loader, with and without UseEnv
 			if comparable && idx%5 == 0 {
 				fileOracle(c, t.rt, label, tx0, res0, scratch)
+			}
+			// ---- repeat after scribble: the result must not depend on what was loaded before
+			if comparable && idx%5 == 2 {
+				repeatAfterScribble(c, t.rt, label, tx0, res0)
 			}
 		}
 	}
@@ -984,7 +1013,7 @@ func TestVerifC17(t *testing.T) {
 		g := &tgen{r: c.R}
 		td := descOf(g.structT(c.R.Range(0, 3), 1))
 		for i := 0; i < docsPerType; i++ {
-			runPair(c, td, false, scratch, i)
+			runPair(c, td, false, scratch, i, 0.25, 0.5)
 		}
 	})
 	// random StructOf types with plain json name tags: three-format oracle + encoding/json oracle
@@ -992,14 +1021,14 @@ func TestVerifC17(t *testing.T) {
 		g := &tgen{r: c.R, plain: true}
 		td := descOf(g.structT(c.R.Range(0, 3), 1))
 		for i := 0; i < docsPerType; i++ {
-			runPair(c, td, true, scratch, i)
+			runPair(c, td, true, scratch, i, 0.25, 0.5)
 		}
 	})
 	// hand-written family with embedded structs
 	kit.Run(t, "C17", "fixed", kit.N(1000, 30000), func(c *kit.Case) {
 		td := descOf(fixedFamily[c.Index%len(fixedFamily)])
 		for i := 0; i < docsPerType; i++ {
-			runPair(c, td, false, scratch, i)
+			runPair(c, td, false, scratch, i, 0.25, 0.5)
 		}
 	})
 	// encoding/json family: nulls, number spellings, key-case variants, top-level slices
@@ -1018,5 +1047,27 @@ func TestVerifC17(t *testing.T) {
 	kit.Run(t, "C17", "env", kit.N(1500, 20000), func(c *kit.Case) {
 		runEnv(c, scratch)
 	})
+	// number spellings: small numeric types, every number in another legal spelling per format
+	kit.Run(t, "C17", "numspell", kit.N(700, 20000), func(c *kit.Case) {
+		g := &tgen{r: c.R, plain: true}
+		td := descOf(numStructT(g, c.R.Range(0, 1)))
+		for i := 0; i < docsPerType; i++ {
+			runPair(c, td, true, scratch, i, 1, 0.8)
+		}
+	})
+	// history: evaluate, scribble, evaluate again; input with bytes after the first JSON value
+	kit.Run(t, "C17", "history", kit.N(500, 12000), runHistory)
+	// core/mapping's format-specific entry points (bytes and reader) with every UnmarshalOption
+	kit.Run(t, "C17", "mapopts", kit.N(1400, 35000), runMapOpts)
+	// documents the format's reference parser rejects
+	kit.Run(t, "C17", "malformed", kit.N(300, 8000), func(c *kit.Case) { runMalformed(c, scratch) })
+	// documents outside the quantifier (panic fence, counted)
+	kit.Run(t, "C17", "odd", kit.N(40, 800), runOdd)
+	// conf.Load: extensions, missing files, deprecated aliases, MustLoad
+	kit.Run(t, "C17", "files", kit.N(400, 10000), func(c *kit.Case) { runFiles(c, scratch) })
+	// $VAR forms, unset / empty variables, a literal '$'
+	kit.Run(t, "C17", "env-forms", kit.N(800, 15000), func(c *kit.Case) { runEnvForms(c, scratch) })
+	// types with conflicting keys, embedded maps / scalars, unsupported field kinds
+	kit.Run(t, "C17", "conflict", kit.N(330, 6600), func(c *kit.Case) { runConflict(c, scratch) })
 	kit.End()
 }
